@@ -258,6 +258,24 @@ def files_case(rec, hub, rng, tier, d, tmpdir, i):
         elif route == "csv":
             mfa = fd.MFASystem.from_csv(definition, dimension_files=dim_files, parameter_files=par_files)
         elif route == "xlsx-named-sheets":
+            if i % 3 == 1 and dim_sheets:
+                # a sheet name that the workbook does not have: refused, never replaced by another sheet
+                wrong = dict(dim_sheets)
+                wrong[sorted(wrong)[0]] = "no such sheet"
+                rec.event(MR, sig="missing-dimension-sheet", cls="refuse|named sheet missing in the workbook")
+                try:
+                    fd.MFASystem.from_excel(definition, dimension_files=dim_files, parameter_files=par_files, dimension_sheets=wrong, parameter_sheets=par_sheets)
+                    rec.violation(MR, "accepted:dimension-sheet-that-does-not-exist", {"sheets": list(wrong.values())[:4]})
+                except Exception:
+                    pass
+                if par_sheets:
+                    wrongp = dict(par_sheets)
+                    wrongp[sorted(wrongp)[0]] = "no such sheet"
+                    try:
+                        fd.MFASystem.from_excel(definition, dimension_files=dim_files, parameter_files=par_files, dimension_sheets=dim_sheets, parameter_sheets=wrongp)
+                        rec.violation(MR, "accepted:parameter-sheet-that-does-not-exist", {"sheets": list(wrongp.values())[:4]})
+                    except Exception:
+                        pass
             mfa = fd.MFASystem.from_excel(definition, dimension_files=dim_files, parameter_files=par_files, dimension_sheets=dim_sheets, parameter_sheets=par_sheets)
         elif route == "xlsx-first-sheet":
             mfa = fd.MFASystem.from_excel(definition, dimension_files=dim_files, parameter_files=par_files)
@@ -403,6 +421,8 @@ def one(rec, hub, seed, tier, i, tmpdir):
     n_time = [None, None, None, None, 1, 2][int(rng.integers(0, 6))]  # also systems over one or two time steps (nothing is computed here)
     user_classes = bool(rng.random() < 0.3)
     d = SY.gen_def(rng, hostile_names=(tier == "thorough"), time_letter_variants=0.0 if which == 0 and i % 2 == 0 else 0.35, vary_items=True, big_system=0.03, n_time=n_time)
+    if d.flows and rng.random() < 0.08 and all(f_["override"] != "" for f_ in d.flows):
+        d.flows[int(rng.integers(0, len(d.flows)))]["override"] = ""  # an overriding name may be any text, the empty one included
     if user_classes:
         for s_ in d.stocks:
             s_["user_subclass"] = True  # stock definitions naming the user's own subclasses of the shipped stock classes
